@@ -2,3 +2,4 @@ use vstd::prelude::*;
 //@ items
 //@ include ../_common/prelude_http.rs
 //@ include ../_common/prelude_error.rs
+//@ include ../_common/prelude_response.rs
